@@ -219,4 +219,9 @@ def r7(ctx):
               witness=norm(dyn) if dyn is not None else None, line=node.lineno)
 
 
-RULES = [("C16.R1", r1), ("C16.R2", r2), ("C16.R3", r3), ("C16.R4", r4), ("C16.R5", r5), ("C16.R6", r6), ("C16.R7", r7)]
+def r_idioms(ctx):
+    from .common import repo_idioms
+    repo_idioms(ctx, "C16.R8", ('http_server',))
+
+
+RULES = [("C16.R1", r1), ("C16.R2", r2), ("C16.R3", r3), ("C16.R4", r4), ("C16.R5", r5), ("C16.R6", r6), ("C16.R7", r7), ("C16.R8", r_idioms)]
